@@ -209,6 +209,12 @@ func (r *FeatureLocal) addPendingApproval(msg *api.Message) {
 	r.muxResponseCB.Lock()
 	newTimer := time.AfterFunc(r.writeTimeout, func() {
 		r.muxResponseCB.Lock()
+		// the connection may have been removed meanwhile and a write of its successor may be waiting
+		// under the same message counter: only the write this timer was started for times out here
+		if current, ok := r.pendingWriteSources[ski][*msg.RequestHeader.MsgCounter]; ok && current != nil && current.msg != msg {
+			r.muxResponseCB.Unlock()
+			return
+		}
 		_, pending := r.pendingWriteApprovals[ski][*msg.RequestHeader.MsgCounter]
 		delete(r.pendingWriteApprovals[ski], *msg.RequestHeader.MsgCounter)
 		delete(r.pendingWriteSources[ski], *msg.RequestHeader.MsgCounter)
